@@ -144,7 +144,12 @@ def prove_frame(S):
     S.guarded('frame of the replacement', lambda: _frame(S))
 
 
-def _frame(S):
+def prove_self_replacement(S):
+    """C08: the same block with the replacement pattern identical to the search pattern (and carrying no terms of its own)."""
+    S.guarded('self-replacement', lambda: _frame(S, mode='self'))
+
+
+def _frame(S, mode='frame'):
     I = S.interp()
     I.allow_merge = False
     models_py.install(I)
@@ -231,6 +236,7 @@ def _frame(S):
             I.assume(z3.ForAll([x], mem(x) == v.pred(x), patterns=[mem(x)]))
             I.assume(AM.pairwise_distinct(dl, I.reg.fresh('ld')))
             I.reg.assumptions_used.add("list(s) of a set: every member exactly once, nothing else")
+            I.assume(z3.Implies(dl.length > 0, v.pred(z3.Select(dl.cols[0], 0))))       # ground instance of `every listed item is a member`
             st['deleted_list'] = dl
             return dl
         return prev_list(ctx, v) if prev_list else None
@@ -260,19 +266,43 @@ def _frame(S):
                     z3.ForAll([x], z3.Implies(D.pred(x), z3.And(inM(x), x >= 0, x < N))))]
         for kk, _ in AM.KINDS:
             out.append(('%s-refer-to-existing-atoms' % AM.PLURAL[kk], AM.all_in_range(hs[AM.PLURAL[kk]], 0, hs['positions'].length, 'fr_' + kk)))
-        out += deletion_set_is_exact(D, k if z3.is_expr(k) else z3.IntVal(k))
+        if mode != 'self':
+            out += deletion_set_is_exact(D, k if z3.is_expr(k) else z3.IntVal(k))
+        if mode == 'self':
+            E1, E0 = hs['atom_type_elements'], old['atom_type_elements']
+            out += [('no-atom-is-added', hs['positions'].length == N),
+                    ('nothing-is-marked-for-deletion', z3.ForAll([x], z3.Not(D.pred(x)), patterns=[D.pred(x)]) if _is_app(D, x) else z3.ForAll([x], z3.Not(D.pred(x)))),
+                    ('every-atom-keeps-its-element', z3.ForAll([s], z3.Implies(z3.And(s >= 0, s < N), z3.And(
+                        z3.Select(hs['atom_types'].cols[0], s) >= 0, z3.Select(hs['atom_types'].cols[0], s) < E1.length,
+                        z3.Select(E1.cols[0], z3.Select(hs['atom_types'].cols[0], s)) == z3.Select(E0.cols[0], z3.Select(old['atom_types'].cols[0], s)))),
+                        patterns=[z3.Select(hs['atom_types'].cols[0], s)]))]
+            for kk, _ in AM.KINDS:
+                for fld in (AM.PLURAL[kk], kk + '_types', 'extra_%s_fields' % kk):
+                    nf, of = hs[fld], old[fld]
+                    out.append(('%s-unchanged' % fld, z3.And(nf.length == of.length, z3.ForAll([s], z3.Implies(z3.And(s >= 0, s < of.length),
+                                z3.And(*[z3.Select(cn, s) == z3.Select(co, s) for cn, co in zip(nf.cols, of.cols)])), patterns=[z3.Select(nf.cols[0], s)]))))
         return out
 
     def deletion_set_is_exact(D, k):
         """to_delete after k matches = the atoms of those matches at search positions that are not common to both patterns (all positions
-        with replace_all)."""
-        MI, NS, removable = st['MI'], st['NS'], st['removable']
+        with replace_all).  Quantifier-alternation free: Rm(j, x) = `x is a removable atom of match j` (with its position pos(j, x) as witness),
+        fm(x) = the first match in which x is removable (ghost definitions, see thunk); then  D_k = {x : 0 <= fm(x) < k}."""
+        MI, NS, removable, Rm, fm = st['MI'], st['NS'], st['removable'], st['Rm'], st['fm']
         x, j, a = z3.Int('dx'), z3.Int('dj'), z3.Int('da')
         ent = z3.Select(z3.Select(MI, j), a)
-        return [('marked-atoms-are-removable-atoms-of-earlier-matches',
-                 z3.ForAll([x], z3.Implies(D.pred(x), z3.Exists([j, a], z3.And(j >= 0, j < k, a >= 0, a < NS, ent == x, removable(a)))))),
-                ('removable-atoms-of-earlier-matches-are-marked',
-                 z3.ForAll([j, a], z3.Implies(z3.And(j >= 0, j < k, a >= 0, a < NS, removable(a)), D.pred(ent)), patterns=[ent]))]
+        out = [('marked-atoms-are-exactly-the-removable-atoms-of-earlier-matches',
+                z3.ForAll([x], D.pred(x) == z3.And(fm(x) >= 0, fm(x) < k, Rm(fm(x), x)), patterns=[fm(x)] + ([D.pred(x)] if _is_app(D, x) else [])))]
+        return out
+
+    def removed_atoms_characterised(D, M_):
+        MI, NS, removable, Rm, fm, pos = st['MI'], st['NS'], st['removable'], st['Rm'], st['fm'], st['pos']
+        x, j, a = z3.Int('dx'), z3.Int('dj'), z3.Int('da')
+        ent = z3.Select(z3.Select(MI, j), a)
+        return [('every-removed-atom-is-a-removable-atom-of-a-replaced-match',
+                 z3.ForAll([x], z3.Implies(D.pred(x), z3.And(fm(x) >= 0, fm(x) < M_, pos(fm(x), x) >= 0, pos(fm(x), x) < NS,
+                                                              z3.Select(z3.Select(MI, fm(x)), pos(fm(x), x)) == x, removable(pos(fm(x), x)))))),
+                ('every-removable-atom-of-a-replaced-match-is-removed',
+                 z3.ForAll([j, a], z3.Implies(z3.And(j >= 0, j < M_, a >= 0, a < NS, removable(a)), D.pred(ent))))]
 
     def _is_app(D, x):
         try:
@@ -329,16 +359,63 @@ def _frame(S):
         I.assume(AM.all_in_range(cv, 0, NS, 'cvr'))
         I.reg.assumptions_used.add("requires: find_unchanged_atom_pairs(replace, search) is a partial injection (no two coincident same-element atoms in a pattern)")
         r2s = models_ext.input_map(I, ck, cv)
+        if mode == 'self':
+            # identical patterns: the shared-atom map is the identity on all atoms (proved in C08: find_unchanged_atom_pairs(P, P)); the pattern
+            # carries no terms of its own (a pattern WITH terms adds them: C06); matched atoms have the pattern's elements (contract of the
+            # search, C01 clause 1); type ids are covered by the type tables (WF)
+            I.assume(z3.And(NS == NR, L == NS))
+            I.assume(z3.ForAll([a], z3.Implies(z3.And(a >= 0, a < L), z3.And(z3.Select(ck.cols[0], a) == a, z3.Select(cv.cols[0], a) == a)), patterns=[z3.Select(ck.cols[0], a)]))
+            I.assume(z3.ForAll([a], z3.Implies(z3.And(a >= 0, a < L), z3.And(z3.Select(ck.cols[0], a) == a, z3.Select(cv.cols[0], a) == a)), patterns=[z3.Select(cv.cols[0], a)]))
+            mem_cv_, mem_ck_ = mem_of(I, cv), mem_of(I, ck)
+            I.assume(z3.ForAll([a], z3.Implies(z3.And(a >= 0, a < L), z3.And(z3.Select(ck.cols[0], a) == a, z3.Select(cv.cols[0], a) == a)), patterns=[mem_cv_(a)]))
+            I.assume(z3.ForAll([a], z3.Implies(z3.And(a >= 0, a < L), z3.And(z3.Select(ck.cols[0], a) == a, z3.Select(cv.cols[0], a) == a)), patterns=[mem_ck_(a)]))
+            for kk, _ in AM.KINDS:
+                I.assume(fp[AM.PLURAL[kk]].length == 0)
+            T0, TP = f['atom_type_elements'].length, fp['atom_type_elements'].length
+            I.assume(AM.all_in_range(f['atom_types'], 0, T0, 'wt_s'))
+            I.assume(AM.all_in_range(fp['atom_types'], 0, TP, 'wt_p'))
+            el_s = lambda i_: z3.Select(f['atom_type_elements'].cols[0], z3.Select(f['atom_types'].cols[0], i_))
+            el_p = lambda i_: z3.Select(fp['atom_type_elements'].cols[0], z3.Select(fp['atom_types'].cols[0], i_))
+            I.assume(z3.ForAll([j, a], z3.Implies(z3.And(j >= 0, j < M, a >= 0, a < NS), el_s(ent(j, a)) == el_p(a)), patterns=[ent(j, a)]))
+            I.reg.assumptions_used.add("contract of find_pattern_in_structure (C01 clause 1, bounded there): the matched atoms carry the pattern's elements")
+            I.reg.assumptions_used.add("find_unchanged_atom_pairs(P, P) is the identity map (proved in C08)")
+
+            def extend_lemmas(ctx, hs, ho, keys, vals, memK, memV):
+                # every atom of the pattern copy is a key of the identity map, and is sent to the matched atom at the same position
+                mi = ctx.lookup('m_i')
+                row = z3.Select(MI, to_z3(mi))
+                la = z3.Int(I.reg.fresh('la'))
+                rng = z3.And(la >= 0, la < NS)
+                l1 = z3.ForAll([la], z3.Implies(rng, z3.And(z3.Select(keys.cols[0], la) == la, z3.Select(vals.cols[0], la) == z3.Select(row, la))))
+                I.oblige("%s/lemma/self/identity-map-entries" % ctx.speckey, z3.And(keys.length == NS, vals.length == NS, l1), 'lemma')
+                I.assume(z3.And(keys.length == NS, vals.length == NS))
+                I.assume(z3.ForAll([la], z3.Implies(rng, z3.And(z3.Select(keys.cols[0], la) == la, z3.Select(vals.cols[0], la) == z3.Select(row, la))), patterns=[memK(la)]))
+                I.assume(z3.ForAll([la], z3.Implies(rng, z3.And(z3.Select(keys.cols[0], la) == la, z3.Select(vals.cols[0], la) == z3.Select(row, la))), patterns=[z3.Select(row, la)]))
+                l2 = z3.ForAll([la], z3.Implies(rng, z3.And(memK(la), memV(z3.Select(row, la)))))
+                I.oblige("%s/lemma/self/every-pattern-atom-is-mapped-onto-its-matched-atom" % ctx.speckey, l2, 'lemma')
+                I.assume(z3.ForAll([la], z3.Implies(rng, z3.And(memK(la), memV(z3.Select(row, la)))), patterns=[memK(la)]))
+                I.assume(z3.ForAll([la], z3.Implies(rng, z3.And(memK(la), memV(z3.Select(row, la)))), patterns=[z3.Select(row, la)]))
+            st['extend_lemmas'] = extend_lemmas
         replace_all = z3.Bool('replace_all')
         mem_cv = mem_of(I, cv)
-        st.update(MI=MI, NS=NS, M=M, removable=lambda a_: z3.Or(replace_all, z3.Not(mem_cv(a_))))
+        removable = lambda a_: z3.Or(replace_all, z3.Not(mem_cv(a_)))
+        # ghost definitions (conservative): pos(j, x) inverts the injective row j; Rm(j, x): x sits at a removable position of match j;
+        # fm(x): the first match in which x is removable
+        pos = z3.Function('pos_in_match', INT, INT, INT)
+        Rm = z3.Function('removable_in_match', INT, INT, z3.BoolSort())
+        fm = z3.Function('first_match_removing', INT, INT)
+        gx = z3.Int('gx')
+        I.assume(z3.ForAll([j, a], z3.Implies(z3.And(j >= 0, j < M, a >= 0, a < NS), z3.And(pos(j, ent(j, a)) == a, Rm(j, ent(j, a)) == removable(a))), patterns=[ent(j, a)]))
+        I.assume(z3.ForAll([j, gx], z3.Implies(Rm(j, gx), z3.And(j >= 0, j < M, pos(j, gx) >= 0, pos(j, gx) < NS, ent(j, pos(j, gx)) == gx, removable(pos(j, gx)),
+                                                                 fm(gx) >= 0, fm(gx) <= j, Rm(fm(gx), gx))), patterns=[Rm(j, gx)]))
+        st.update(MI=MI, NS=NS, M=M, removable=removable, Rm=Rm, fm=fm, pos=pos)
         ignore = z3.Bool('ignore_overlap')
         env = {'structure': structure, 'replace_pattern': pattern, 'match_indices': match_indices, 'match_positions': match_positions, 'quats': quats,
-               'replace2search_pattern_map': r2s, 'replace_all': Sym(replace_all), 'ignore_atoms_should_not_be_deleted_twice': Sym(ignore), 'verbose': False}
+               'replace2search_pattern_map': r2s, 'replace_all': (False if mode == 'self' else Sym(replace_all)), 'ignore_atoms_should_not_be_deleted_twice': Sym(ignore), 'verbose': False}
         ctx = I.block_ctx(REL, FN, env)
         ctx.exec_block(block)
         res = ctx.lookup('new_structure')
-        return structure, pattern, res, ctx.lookup('to_delete'), dict(MI=MI, NS=NS, M=M, removable=st['removable'], structure0=dict(f), pattern0=dict(fp))
+        return structure, pattern, res, ctx.lookup('to_delete'), dict(MI=MI, NS=NS, M=M, removable=st['removable'], Rm=st['Rm'], fm=st['fm'], pos=st['pos'], structure0=dict(f), pattern0=dict(fp))
 
     paths = I.explore(thunk, max_paths=200)
     nret = 0
@@ -362,6 +439,28 @@ def _frame(S):
         O = heap[structure.oid]
         s, x = z3.Int('qs'), z3.Int('qx')
         tag = "replace/frame"
+        if mode == 'self':
+            tag = "replace/self"
+            q = z3.Int('qq')
+            nothing = (idx.length == 0)
+            S.add(I, "%s/lemma/nothing-is-deleted#%d" % (tag, pi), p.pc, nothing, kind='lemma', clause='identical patterns: no atom is removed')
+            pc_self = list(p.pc) + [nothing]
+            same = lambda fld: z3.And(R[fld].length == O[fld].length, z3.ForAll([q], z3.Implies(z3.And(q >= 0, q < O[fld].length),
+                                      z3.And(*[z3.Select(cn, q) == z3.Select(co, q) for cn, co in zip(R[fld].cols, O[fld].cols)]))))
+            S.add(I, "%s/atom-count-positions-charges-groups-unchanged#%d" % (tag, pi), pc_self, z3.And(same('positions'), same('charges'), same('groups')),
+                  clause='replacing a pattern by an identical pattern leaves the atom count and every position, charge and group unchanged')
+            ER, E0 = R['atom_type_elements'], O['atom_type_elements']
+            S.add(I, "%s/every-atom-keeps-its-element#%d" % (tag, pi), pc_self,
+                  z3.And(R['atom_types'].length == N, z3.ForAll([q], z3.Implies(z3.And(q >= 0, q < N), z3.And(
+                      z3.Select(R['atom_types'].cols[0], q) >= 0, z3.Select(R['atom_types'].cols[0], q) < ER.length,
+                      z3.Select(ER.cols[0], z3.Select(R['atom_types'].cols[0], q)) == z3.Select(E0.cols[0], z3.Select(O['atom_types'].cols[0], q)))))),
+                  clause='... and every element')
+            for kk, _ in AM.KINDS:
+                S.add(I, "%s/%s-and-their-types-unchanged#%d" % (tag, AM.PLURAL[kk], pi), pc_self, z3.And(same(AM.PLURAL[kk]), same(kk + '_types'), same('extra_%s_fields' % kk)),
+                      clause='... and the bonded / angled / torsion atom tuples (pattern without terms of its own)')
+            S.add_canary(I, "%s/canary#%d" % (tag, pi), [h for h in p.pc if not z3.is_quantifier(h)])
+            S.add_probe(I, "%s/probe/hypotheses-consistent#%d" % (tag, pi), p.pc)
+            continue
         S.add(I, "%s/input-structure-and-replacement-pattern-not-modified#%d" % (tag, pi), p.pc,
               z3.BoolVal(all(O[k] is v for k, v in gh['structure0'].items()) and all(heap[pattern.oid][k] is v for k, v in gh['pattern0'].items())), kind='frame',
               clause='the input structure and the replacement pattern are left unmodified (the block works on copies)')
@@ -369,7 +468,7 @@ def _frame(S):
                                  *[z3.Select(cn, dst(s_)) == z3.Select(co, s_) for fld in ('positions', 'charges', 'groups') for cn, co in zip(R[fld].cols, O[fld].cols)])
         S.add(I, "%s/only-atoms-of-selected-matches-are-removed#%d" % (tag, pi), p.pc,
               z3.ForAll([x], z3.Implies(D.pred(x), z3.And(inM(x), x >= 0, x < N))), clause='only atoms of replaced matches are removed')
-        for lbl, fml in deletion_set_is_exact(D, st['M']):
+        for lbl, fml in deletion_set_is_exact(D, st['M']) + removed_atoms_characterised(D, st['M']):
             S.add(I, "%s/deletion-set/%s#%d" % (tag, lbl, pi), p.pc, fml,
                   clause='removed atoms = atoms of the replaced matches that occur only in the search pattern (all matched atoms with replace_all)')
         S.add(I, "%s/every-atom-not-removed-keeps-position-charge-group#%d" % (tag, pi), p.pc,
